@@ -243,3 +243,41 @@ func VerifC02_ThriftIDWidth() {
 	verif.Assert(id2 != id, "two live counters map to the same wire id")
 	verif.Cover("end")
 }
+
+// VerifC01_ThriftLargeBody: the body is replaced by one that makes the
+// re-encoded frame cross the encoder's initial buffer size (1024 bytes) -
+// just below, just above and well above: what goes out still decodes to the
+// replaced body with the retargeted id.
+func VerifC01_ThriftLargeBody() {
+	f := zzFrame("f", 2)
+	ctx := zzCtx()
+	frame, err := thriftProtocol{}.Decode(ctx, buffer.NewIoBufferBytes(f))
+	verif.Assert(frame != nil && err == nil, "well-formed frame must decode")
+	if frame == nil {
+		return
+	}
+	xf := frame.(api.XFrame)
+	nb := append([]byte{}, xf.GetData().Bytes()...)
+	extra := []int{900, 1030, 2100}[verif.Choose("extra", 3)]
+	for i := 0; i < extra; i++ {
+		nb = append(nb, 'x')
+	}
+	xf.SetData(buffer.NewIoBufferBytes(nb))
+	id := verif.U64("id")
+	xf.SetRequestId(id)
+	out, err := thriftProtocol{}.Encode(ctx, frame)
+	verif.Assert(err == nil && out != nil, "a body of a few kilobytes must be encodable")
+	if err != nil || out == nil {
+		return
+	}
+	wire := append([]byte{}, out.Bytes()...)
+	frame2, err := thriftProtocol{}.Decode(zzCtx(), buffer.NewIoBufferBytes(wire))
+	verif.Assert(frame2 != nil && err == nil, "re-encoded frame does not decode (length fields do not describe it)")
+	if frame2 == nil {
+		return
+	}
+	xf2 := frame2.(api.XFrame)
+	verif.Assert(string(xf2.GetData().Bytes()) == string(nb), "forwarded body is not the replaced body")
+	verif.Assert(xf2.GetRequestId() == id, "request id differs after re-encode")
+	verif.Cover("end")
+}
